@@ -203,8 +203,10 @@ def check(ctx, rep):
         if arm == "long":
             good = rv[0] == "ref" and rv[1] == ("field", self_root, shf) and fb.ty(fb.adt_fields(ENC)[shf]["ty"]).len == n
         else:
+            if rv[0] == "ref" and rv[1][0] == "subslice" and rv[1][1] == ("field", self_root, shf) and rv[1][2:] == (0, n, False):
+                good = True
             x = strip(rv)
-            if util.is_call(x) and x[1].endswith("::index") and x[2][1][0] == "agg" and x[2][1][2] == "std::ops::Range":
+            if not good and util.is_call(x) and x[1].endswith("::index") and x[2][1][0] == "agg" and x[2][1][2] == "std::ops::Range":
                 lo, hi = [util.numnorm(y) for y in x[2][1][4]]
                 good = lo[:2] == ("int", 0) and hi[:2] == ("int", n)
         rep.check(good, "encoder", fn, arm + "-returned-slice", "returns exactly the %d emitted bytes" % n, "%s form does not return exactly the first %d bytes of the output buffer" % (arm, n), body.loc())
